@@ -33,7 +33,7 @@ MIN_BUDGET = 120
 HANG_IS_VIOLATION = False     # hangs are detected per site, inside run()
 
 TIERS = {
-    'quick': {'runs': 1500, 'classes': 8, 'budget_s': 80},
+    'quick': {'runs': 1500, 'classes': 8, 'budget_s': 60},
     'thorough': {'runs': 80000, 'classes': 32, 'budget_s': 1100},
 }
 
